@@ -113,7 +113,7 @@ func main() {
 	o := hx.Parse()
 	rng := o.Rng()
 	res := hx.NewResult("C16", "random and pooled (weight, replicas) vectors of 1..5 groups, weights 0..256, replicas 0..40, initial-weight 1..256; non-trivial = at least two groups with replicas and a non-zero weight; distinct by canonical text of the input")
-	cw := hx.NewCaseWriter(o, res, "From HI Require Import Corr.Corr_C16.", "rcase", 500)
+	cw := hx.NewCaseWriter(o, res, "From HI Require Import Corr.Corr_C16.", "anycase", 500)
 	var inputs []input
 	if o.Replay != "" {
 		var in input
@@ -154,8 +154,42 @@ func main() {
 			}
 			in := in
 			cw.Add(func(id int) string {
-				return fmt.Sprintf("{| rid := %s; riw := %s; rcls := %s; robs := %s |}", hx.N(id), hx.Z(int64(in.IW)), hx.List(cls), hx.List(obs))
+				return fmt.Sprintf("R {| rid := %s; riw := %s; rcls := %s; robs := %s |}", hx.N(id), hx.Z(int64(in.IW)), hx.List(cls), hx.List(obs))
 			}, in)
+		}
+	}
+	// ---- blue/green through the real updater ----
+	var bgs []bgInput
+	if o.Replay == "" {
+		bgs = append(bgs, bgInput{IW: 100, Weights: []int{90, 10, 0}, Endpoints: []bgEndpoint{{Groups: []int{0}}, {Groups: []int{1}}, {Groups: []int{2}}}})
+		nb := o.Count(1500, 60000)
+		for i := 0; i < nb; i++ {
+			bgs = append(bgs, genBG(rng))
+		}
+	}
+	for _, in := range bgs {
+		out := runBG(in)
+		live := 0
+		for _, e := range in.Endpoints {
+			if !e.Draining && !e.NoPod && len(e.Groups) > 0 {
+				live++
+			}
+		}
+		res.Seen("bg:"+fmt.Sprint(in), live >= 2)
+		res.Count(fmt.Sprintf("bg_groups=%d", len(in.Weights)))
+		if in.Pod {
+			res.Count("bg_mode_pod")
+		} else {
+			res.Count("bg_mode_deploy")
+		}
+		res.OracleChecks++
+		if k, what := oracleBG(in, out); k != "" {
+			res.Count("oracle_fail_" + k)
+			res.Fail(hx.Failure{Key: "C16/" + k, What: what, Input: in, Observed: out})
+		}
+		if !o.Search {
+			in, out := in, out
+			cw.Add(func(id int) string { return coqBG(id, in, out) }, in)
 		}
 	}
 	cw.Flush()
